@@ -32,6 +32,8 @@ func c03Parts() (prefixes [][]gen.Op, kinds []string, rights []*gen.Pipeline, co
 		{proj("k", "x")},
 		{&gen.Extend{Cols: []gen.Column{{Name: &gen.Ident{Name: "z"}, X: gen.Col("x")}}}},
 		{&gen.As{Name: gen.Ident{Name: "A"}}},
+		{&gen.Summarize{Cols: []gen.Column{{Name: &gen.Ident{Name: "x"}, X: &gen.Call{Func: "max", Args: []gen.Expr{gen.Col("x")}}}}, By: []gen.Column{{X: gen.Col("k")}}, HasBy: true}},
+		{gt("x"), &gen.Sort{Kw: "sort", Terms: []gen.SortTerm{{X: gen.Col("x"), Dir: "asc"}}}},
 	}
 	kinds = []string{"", "inner", "innerunique", "leftouter"}
 	tbl := func(n string, ops ...gen.Op) *gen.Pipeline {
@@ -58,6 +60,8 @@ func c03Parts() (prefixes [][]gen.Op, kinds []string, rights []*gen.Pipeline, co
 		{gen.Col("k"), &gen.Binary{Op: "<", X: lr("$left", "x"), Y: lr("$right", "y")}},
 		{gen.Col("k"), &gen.Binary{Op: "!=", X: gen.Col("y"), Y: num("2")}},
 		{eq(&gen.Paren{X: lr("$left", "k")}, lr("$right", "k")), &gen.Binary{Op: ">=", X: lr("$right", "y"), Y: lr("$left", "x")}},
+		{gen.Col("k"), &gen.Binary{Op: ">", X: lr("$right", "y"), Y: num("1")}},
+		{&gen.Binary{Op: ">", X: lr("$left", "x"), Y: num("1")}, gen.Col("k")},
 	}
 	suffixes = [][]gen.Op{
 		nil,
@@ -66,6 +70,8 @@ func c03Parts() (prefixes [][]gen.Op, kinds []string, rights []*gen.Pipeline, co
 		{&gen.Sort{Kw: "sort", Terms: []gen.SortTerm{{X: gen.Col("y"), Dir: "asc"}}}},
 		{proj("x", "y")},
 		{take1},
+		{&gen.Sort{Kw: "sort", Terms: []gen.SortTerm{{X: gen.Col("y")}}}, &gen.Count{}},
+		{&gen.Sort{Kw: "sort", Terms: []gen.SortTerm{{X: gen.Col("y"), Dir: "asc"}}}, &gen.Summarize{Cols: []gen.Column{{Name: &gen.Ident{Name: "n"}, X: &gen.Call{Func: "count"}}}, By: []gen.Column{{X: gen.Col("x")}}, HasBy: true}},
 		{&gen.Join{Kind: "leftouter", Right: tbl("C"), On: []gen.Expr{eq(lr("$left", "x"), lr("$right", "w"))}}},
 		{gt("y"), &gen.Join{Right: tbl("C", gt("w")), On: []gen.Expr{eq(lr("$left", "y"), lr("$right", "w"))}}, &gen.Count{}},
 	}
@@ -126,7 +132,7 @@ func c03Programs(all bool, maxNonDefault int) []*gen.Pipeline {
 }
 
 func c03Main(r *run.Runner) {
-	r.Rule = "explicit-state exploration of join compilation: every program `L <prefix> | join [kind=K] (R <right>) on <cond> <suffix>` over 7 left prefixes x 4 kinds x 10 right-hand pipelines (two with nested joins) x 7 condition forms x 8 suffixes (two with a second join) - quick: all combinations with at most three non-default parts - is compiled; " +
+	r.Rule = "explicit-state exploration of join compilation: every program `L <prefix> | join [kind=K] (R <right>) on <cond> <suffix>` over 9 left prefixes x 4 kinds x 10 right-hand pipelines (two with nested joins) x 9 condition forms x 10 suffixes (two with a second join) - quick: all combinations with at most three non-default parts - is compiled; " +
 		"the emitted SQL is executed by the list-semantics SQL evaluator on every pair of small tables L(k,x), R(k,y) (all row lists of <= 2 rows over k in {NULL,1,2}, x,y in {1,2}) and C(k,w), and compared with the reference join semantics applied by the pipeline interpreter. states = programs, transitions = operator applications, traces validated = (program, database) executions"
 	r.Assume = []string{"result columns of a join = left columns then right columns", "references to a column name present on both sides after the join are not generated; programs whose reference evaluation is undefined (ambiguous name) are skipped and counted"}
 	prefixes, kinds, rights, conds, suffixes := c03Parts()
